@@ -271,6 +271,14 @@ pub fn programs(thorough: bool) -> Vec<(String, Option<Query>)> {
         // query on the right-hand side (`to` comes from the data), unresolved on either side
         let c = Clause::Binary { not: false, some: false, q: vec![key("b")], op: BinOp::Eq, opneg: false, rhs: Arg::Q(false, q.clone()), msg: None };
         out.push((print_file(&file1(rule("r", vec![vec![c]]))), None));
+        // a literal variable on either side (the literal has no place in the data: no path may be invented for it)
+        let wl = vec![Let { name: "w".into(), val: Arg::Lit(i(1)) }];
+        let mut f1 = file1(rule("r", vec![vec![Clause::Binary { not: false, some: false, q: vec![Part::Var("w".into())], op: BinOp::Eq, opneg: false, rhs: Arg::Q(false, q.clone()), msg: None }]]));
+        f1.lets = wl.clone();
+        out.push((print_file(&f1), None));
+        let mut f2 = file1(rule("r", vec![vec![Clause::Binary { not: false, some: false, q: q.clone(), op: BinOp::Eq, opneg: false, rhs: Arg::Q(false, vec![Part::Var("w".into())]), msg: None }]]));
+        f2.lets = wl;
+        out.push((print_file(&f2), None));
         // block over the query (missing block values)
         let c = Clause::Block { some: false, q: q.clone(), not_empty: false, lets: vec![], body: vec![vec![un(vec![key("zz")], UnOp::Exists, false)]] };
         out.push((print_file(&file1(rule("r", vec![vec![c]]))), None));
@@ -326,6 +334,43 @@ pub fn run(tier: &str) -> i32 {
                 Ok(v) => v,
                 Err(_) => continue, // evaluation error: nothing reported
             };
+            // the console summary of the same run (JSON layouts only, the paths do not depend on the layout): every
+            // `Property [P] ... provided value [V]` line names a path that holds V, every `traversed until [P]` an existing path
+            if lay.kind == "json" {
+                let oc = cli_inproc(&sv(&["validate", "-r", &rp, "-d", &dp]), "");
+                acc.traces += 1;
+                if oc.panic.is_none() {
+                    for line in oc.out.lines() {
+                        let what = if let Some(rest) = line.strip_prefix("Property [") {
+                            let pth = rest.split("] in data [").next().unwrap_or("");
+                            match line.find("provided value [").map(|k| &line[k + 16..]) {
+                                Some(vtxt) if !pth.is_empty() => match serde_json::Deserializer::from_str(vtxt).into_iter::<Value>().next() {
+                                    Some(Ok(v)) => match resolve(doc, pth) {
+                                        None => Some(format!("console line names path {} which does not exist in the document", pth)),
+                                        Some(dv) if dv.to_json_value() != v => Some(format!("console line says the value at {} is {} but the document holds {}", pth, v, dv.json())),
+                                        _ => None,
+                                    },
+                                    _ => None,
+                                },
+                                _ => None,
+                            }
+                        } else if let Some(rest) = line.strip_prefix("Property traversed until [") {
+                            let pth = rest.split("] in data [").next().unwrap_or("");
+                            if resolve(doc, pth).is_none() {
+                                Some(format!("console line says the traversal reached {} which does not exist in the document", pth))
+                            } else {
+                                None
+                            }
+                        } else {
+                            None
+                        };
+                        if let Some(w) = what {
+                            acc.violate("console-path-value", format!("{} | `{}` | rules `{}` data `{}`", w, line.trim(), rules.trim(), text.trim()), json!({"kind":"cli","argv":["validate","-r","r.guard","-d","d.json"],"files":{"rules":rules,"data":text},"expected":"the path resolves to the reported value","observed":line}));
+                        }
+                        acc.nontrivial += 1;
+                    }
+                }
+            }
             let mut cx = Ctx { doc, pos, stuck: stuck.clone(), problems: vec![], checked: 0 };
             walk_report(&v, &mut cx);
             *acc.outcomes.entry("checked-items".into()).or_insert(0) += cx.checked;
